@@ -6,7 +6,7 @@ from .. import sched
 from ..abstract import EMB
 from ..core import CheckRun
 from ..domains import Rng, pairs_upto
-from ..drivers import api, stats
+from ..drivers import api, shape, stats
 from ..env import NULL
 from . import C01, C16
 
@@ -72,12 +72,33 @@ def build(rng, tier):
     return red, app
 
 
+def multi_column_cases(rng, tier):
+    """transform over several value columns (list / dict / frame / 2-D array) whose null patterns differ."""
+    out = []
+    for _ in range(600 if tier == "quick" else 6000):
+        n = rng.randrange(2, 7)
+        keys = [[rng.pick([NULL, 1, 2, 3])] for _ in range(n)]
+        nv = rng.pick([2, 2, 3])
+        vcols = [[rng.pick([NULL, NULL, 1, 2, 3]) for _ in range(n)] for _ in range(nv)]
+        vk = rng.pick(["list", "dict", "frame", "2d"])
+        vnames = rng.sample(["a", "b", "zz", "v1"], nv) if vk in ("dict", "frame") else [None] * nv
+        kenc = rng.pick(["f64", "str", "cat"])
+        if kenc == "str" and keys[0][0] == NULL:
+            kenc = "f64"
+        c = dict(op=rng.pick(["mean", "mean", "sum", "count", "min", "max", "first", "last"]), keys=keys, kenc=[kenc], knames=[None], kkind="list", vcols=vcols, vnames=vnames, vkind=vk,
+                 sort=1, oo=1, tf=1, mask=C.NONE if rng.random() < 0.6 else {"k": "bool", "b": [rng.randrange(2) for _ in range(n)]})
+        if n >= 2 and rng.random() < 0.25 and kenc != "cat":
+            c["T"] = 2
+        out.append(c)
+    return out
+
+
 def run(tier):
     ck = CheckRun("C07", tier, rule=(
         "transform=True for size/count/sum/mean/min/max/first/last/var/std on every (keys, values) pair over {Null,1,2,3} up "
         "to length 3 (quick: half of n=3) / 4 (float, unmasked: exhaustive) plus drawn key dtype x value dtype x mask kind x "
         "container (ndarray, Series with a shuffled non-default index, polars) x key representation (flat, chunked at "
-        "threshold 2/4), apply(scalar f)/median with transform, random rows up to 24.  TLC replays each call through GBCore "
+        "threshold 2/4), apply(scalar f)/median with transform, 2-3 value columns with different null patterns (list / dict / frame / 2-D), random rows up to 24.  TLC replays each call through GBCore "
         "and requires row r's value = the group's value (neutral/null for null keys and unselected groups), the input's "
         "index and container kind."))
     ck.mc_bg("GBCore", C01.MC.format(labels="{1, 2}", nkeys=1, vals="{1, 2}", rows=3, kernels=C01.ALLK, obv="FALSE"), "core_n3", workers=4)
@@ -91,6 +112,15 @@ def run(tier):
     ta = ck.drive(stats.run_apply, app, warm_cases=[a for a in app if not a.get("T")][:10])
     rej = ck.validate("Trace_GBApply", ta, C16.APPLY_CFG, "apply", nontrivial=C.nontrivial_api)
     ck.judge(rej, "Trace_GBApply", {})
+    mcc = multi_column_cases(rng, tier)
+    lists = ck.drive(shape.run_shape, mcc, warm_cases=[])
+    ck.check_harness([x for x in lists if not isinstance(x, list)])
+    failed = [l[0] for l in lists if isinstance(l, list) and l[0].get("out") != "ok"]
+    for t in failed:
+        ck.add_violation(t)
+    cols = [t for l in lists if isinstance(l, list) for t in l[1:]]
+    rej = ck.validate("Trace_GBCore", cols, C01.trace_cfg(), "multi_column", nontrivial=C.nontrivial_api)
+    ck.judge(rej, "Trace_GBCore", {})
     ck.exhaustive = True
     routes = {}
     for t in tr:
